@@ -476,11 +476,20 @@ def check_backtrack(ctx, ex, p, drv, rv, st):
     cp = rv.items[1]
     # analyse the helper on its own
     helper = None
-    for n in ast.walk(drv.node):
-        if isinstance(n, ast.Return) and isinstance(n.value, ast.Tuple) and len(n.value.elts) == 2 and isinstance(n.value.elts[1], ast.Call):
-            r = ctx.P.resolve_expr(drv.module, n.value.elts[1].func)
-            if isinstance(r, FuncInfo):
-                helper = (r, n.value.elts[1])
+    from .common import return_exprs
+
+    for v in return_exprs(drv):
+        if isinstance(v, ast.Tuple) and len(v.elts) == 2:
+            second = v.elts[1]
+            if isinstance(second, ast.Name):
+                # `cpts = helper(prev); return costs, cpts`
+                one = [n for n in ast.walk(drv.node) if isinstance(n, ast.Assign) and len(n.targets) == 1 and isinstance(n.targets[0], ast.Name) and n.targets[0].id == second.id]
+                if len(one) == 1:
+                    second = one[0].value
+            if isinstance(second, ast.Call) and isinstance(second.func, (ast.Name, ast.Attribute)):
+                r = ctx.P.resolve_expr(drv.module, second.func)
+                if isinstance(r, FuncInfo):
+                    helper = (r, second)
     if helper is None:
         ctx.undecided(rule, "helper", drv.loc(), "the changepoints are not produced by a backtracking helper called in the return statement")
         return
